@@ -492,7 +492,9 @@ fn injection_strategy(profile: ConcProfile) -> BoxedStrategy<Injection> {
     let delay = prop_oneof![3 => (10u16..3000).prop_map(Delay::Spin), 2 => (1u8..4).prop_map(Delay::Yield), 2 => (5u16..300).prop_map(Delay::SleepUs)];
     let site = match profile {
         ConcProfile::Reads => prop_oneof![Just(Site::PoolAdd as u8), Just(Site::ConsumerLoop as u8), Just(Site::ReadAfterStore as u8)].boxed(),
-        ConcProfile::Shutdown => prop_oneof![(Site::ShutdownAfterFlag as u8..=Site::ShutdownAfterPolicyClear as u8), Just(Site::WorkerAfterDequeue as u8), Just(Site::SendBefore as u8), Just(Site::PutAfterExistenceCheck as u8), Just(Site::WorkerBeforeAcknowledge as u8)].boxed(),
+        ConcProfile::Shutdown => prop_oneof![3 => (Site::ShutdownAfterFlag as u8..=Site::ShutdownAfterPolicyClear as u8), 1 => Just(Site::WorkerAfterDequeue as u8), 1 => Just(Site::SendBefore as u8), 1 => Just(Site::PutAfterExistenceCheck as u8), 1 => Just(Site::WorkerBeforeAcknowledge as u8),
+            // critical sections of the worker that shutdown()'s clearing steps can meet
+            2 => Just(Site::CacheWeightUpdateInEntry as u8), 1 => Just(Site::CacheWeightAddAfterInsert as u8), 1 => Just(Site::CacheWeightDeleteAfterRemove as u8), 1 => Just(Site::CacheWeightDeleteInLock as u8), 1 => Just(Site::CreateSpaceLoop as u8), 1 => Just(Site::SweeperInRetain as u8)].boxed(),
         ConcProfile::Bursts => prop_oneof![Just(Site::WorkerAfterDequeue as u8), Just(Site::SendBefore as u8), Just(Site::SendAfter as u8), Just(Site::WorkerBeforeAcknowledge as u8), Just(Site::PutAfterExistenceCheck as u8)].boxed(),
         _ => (0u8..SITES as u8).boxed(),
     };
